@@ -258,6 +258,12 @@ Section WithH.
       rewrite Cb, D, F. reflexivity.
   Qed.
 
+  Lemma unimplemented_ok : forall (A : Type) (r : res A) a, unimplemented_is_badalg r = Ok a <-> r = Ok a.
+  Proof.
+    intros A r a. destruct r as [x|e|e]; cbn; try tauto.
+    destruct (e =? eNotImplemented); split; discriminate.
+  Qed.
+
   Lemma ctx_verify_iff : forall c mac, ctx_verify H c mac = Ok tt <-> mac = ctx_sign H c.
   Proof.
     intros. unfold ctx_verify. destruct (zlist_eqb (ctx_sign H c) mac) eqn:E.
@@ -279,13 +285,14 @@ Section WithH.
     - intros E.
       destruct (validate_pre wire k owner rd now start) as [nw| |] eqn:P; cbn [bind] in E; try discriminate.
       apply validate_pre_iff in P as (ad & P & ->).
-      destruct (digest _ k rd None rmac ctx multi) as [c| |] eqn:D; cbn [bind] in E; try discriminate.
+      destruct (unimplemented_is_badalg (digest _ k rd None rmac ctx multi)) as [c| |] eqn:D; cbn [bind] in E; try discriminate.
+      apply (proj1 (unimplemented_ok _ _ _)) in D.
       destruct (ctx_verify H c (t_mac rd)) as [[]| |] eqn:V; cbn [bind] in E; try discriminate.
       apply ctx_verify_iff in V. exists ad, c. auto.
     - intros (ad & c & P & D & M & S).
       assert (P' : validate_pre wire k owner rd now start = Ok (strip_tsig wire ad start))
         by (apply validate_pre_iff; eauto).
-      rewrite P'. cbn [bind]. rewrite D. cbn [bind].
+      rewrite P'. cbn [bind]. rewrite D. cbn [bind unimplemented_is_badalg].
       apply ctx_verify_iff in M. rewrite M. cbn [bind]. exact S.
   Qed.
 
